@@ -184,6 +184,7 @@ class C07(Check):
                               "sched": {"type": "preempt", "points": []}})
         cases += self.burst_cases([1, 2, 1023, 1024, 1025])
         cases += self.batch_cases()
+        cases += self.prio_cases()
         cases += self.sweep_cases()
         # task objects that are falsy (a Task subclass with __len__/__bool__): `if not self._locked` takes a lock held by such a
         # task for free.  Exercised when the code carries the repair (fixes/C07-2_lock_falsy_holder.diff) or the finding is listed.
@@ -196,13 +197,9 @@ class C07(Check):
             # the reproduction of schedule_hub_race_defect on the real classes; exercised (and reported as KNOWN-FINDING) once the
             # finding is listed in known_findings.json — until then it is available through `--replay corpus/C07/hubrace.json`
             cases.append({"kind": "hubrace", "seed": 13})
-        # two scheduler instances must not share state: a hand-over to a scheduler that is not the default one.  On the current
-        # tree Scheduler.callLater / schedule start their helper task with start() = on the DEFAULT scheduler (candidate repair
-        # fixes/C07_own_scheduler.diff); POX has one scheduler and the check's assumptions say so.  Exercised once the finding is
-        # listed in known_findings.json or the code carries the repair (probed by behaviour); replay: corpus/C07/twosched.json
-        two = {"kind": "twosched"}
-        if common.Findings().match(self.id, TWOSCHED_KEY) or not self.run_twosched(two)["leaked"]:
-            cases.append(two)
+        # two scheduler instances must not share state: a hand-over to a scheduler that is not the default one stays with that
+        # scheduler (fix C07-3, b1a8641: helper tasks are started on `self`); replay: corpus/C07/twosched.json
+        cases.append({"kind": "twosched"})
         cases += self.lock_corpus()
         cases += [{"kind": "pinger", "ops": ops} for ops in ([0, 1], [0, 0, 0, 1, 0, 1], [0] * 5 + [1, 0, 1, 0, 0, 1])]
         cases += [{"kind": "pinger", "ops": [0] * n + [1, 0, 1]} for n in (1, 2, 1023, 1024, 1025, 2048, 2049)]     # around the read size
@@ -239,10 +236,41 @@ class C07(Check):
             out.append(case(threaded, [[dict(o="callLater", f=f) for f in (5, 1, 5, 3, 5)], [dict(o="callLater", f=f) for f in (4, 5)]],
                             sched={"type": "pct", "seed": 1, "d": 2, "k": 150}))
             out.append(case(threaded, [[dict(o="callLater", f=f) for f in range(6)]], falsy_cb=1))
+            # ONE submitter mixing all entry points (Scheduler.callLater, core.callLater / call_later / raiseLater, with and without
+            # arguments): a cooperative task on the scheduler thread, alone and next to a foreign thread doing the same
+            for sf in ([4, 2, 4, 3], [2, 4, 0, 2], [0, 3, 5, 4, 1, 2], [3, 0, 2, 5]):
+                c = case(threaded, [[]], sf=sf); c["users"] = [[2] * len(sf) + [0]]
+                out.append(c)
+                c = case(threaded, [[dict(o="callLater", f=f) for f in sf]], sf=sf, sched={"type": "pct", "seed": 3, "d": 2, "k": 150})
+                c["users"] = [[2, 2, 1] + [2] * (len(sf) - 2) + [0]]
+                out.append(c)
             # hand-overs from cooperative code (a task's slice), one of them raising
             for sx in (["IndexError", None, None], [None, "BaseExc", None], [None, None, "KeyError"]):
                 c = case(threaded, [[dict(o="callLater")]], sx=sx); c["users"] = [[2, 2, 2, 0]]
                 out.append(c)
+        return out
+
+    def prio_cases(self):
+        """tasks with priority < 1 (0.5, 0): the scheduler's priority rotation pops such a task, draws, and puts it back behind
+        the others when it loses — with the draw pinned both ways (Scheduler._random).  The task is woken from foreign threads
+        and from the scheduler thread (another task's slice) while it sits in the ready queue, before and after a lost draw:
+        it must be queued at most once and run one slice per coalesced wake-up.  Oracle only (the rotation is not in the model)."""
+        out = []
+        S0, S1 = {"o": "schedule", "t": 0}, {"o": "schedule", "t": 1}
+        spin = [1, 1, 1, 1, 0]
+        scen = [
+            ([[0], spin], [[S1, S0, S0], [S0]]),                       # sleeper 0 woken by threads while a spinner keeps the queue non-empty
+            ([[0], [1, 3, 1, 3, 1, 0]], [[S1, S0]]),                   # ... and by the spinner itself (scheduler thread)
+            ([[1, 0], [1, 3, 1, 3, 0], spin], [[S1, {"o": "schedule", "t": 2}, S0], [S0, S0]]),
+            ([[0], [0]], [[S0, S1, S0, S1], [S1, S0]]),                 # two low-priority sleepers
+        ]
+        for users, progs in scen:
+            for prio in ([0.5, 1, 1], [0, 1, 1], [0.5, 0.5, 1], [0.5, 0, 0.5]):
+                for draws in ([0.9, 0.9, 0.0], [0.0], [0.9, 0.0], [0.6, 0.4, 0.0]):
+                    for threaded in (False, True):
+                        for seed in (0, 1):
+                            out.append({"kind": "threads", "threaded": threaded, "users": users, "progs": progs, "prio": prio[:len(users)],
+                                        "draws": draws, "sched": {"type": "pct", "seed": seed, "d": 2, "k": 150}})
         return out
 
     def sweep_cases(self):
@@ -325,6 +353,10 @@ class C07(Check):
         if nu and rng.random() < 0.15: case["falsy_task"] = 1
         if rng.random() < 0.15: case["syncform"] = rng.choice([1, 2])
         if rng.random() < 0.15: case["sx"] = [rng.choice(self.EXCS + [None, None]) for _ in range(3)]
+        if rng.random() < 0.4: case["sf"] = [rng.randrange(6) for _ in range(4)]
+        if nu and rng.random() < 0.15:
+            case["prio"] = [rng.choice([0.5, 0, 0.99, 1]) for _ in range(nu)]
+            case["draws"] = [rng.choice([0.0, 0.3, 0.6, 0.9]) for _ in range(rng.randrange(1, 4))] + [0.0]
         if rng.random() < 0.15: case["sched"] = {"type": "preempt", "points": [], "order": ["F%d" % i for i in range(nf)] + ["S", "H"]}
         return case
 
@@ -434,6 +466,7 @@ class C07(Check):
         ctl = ft.Controller(chooser, trace_funcs=trace_funcs, yield_lines=(), max_steps=case.get("budget", MAX_STEPS),
                             frame_files=(self.rfile,), cover=cover)
         ctl.roles, keep, creating, made = {}, [], [], {"clt": [], "st": [], "sync": []}
+        ctl.real_identity = True         # pox.core & co. may ask the real `threading` module whether they are on the scheduler thread
         def role(obj, r): ctl.roles[id(obj)] = r; keep.append(obj)
         ctl.pipe_role = lambda: (creating[-1] if creating else "hub")
         def namer(th):
@@ -518,6 +551,8 @@ class C07(Check):
                 def __init__(self, idx, prog):
                     self.idx, self.prog = idx, list(prog)
                     recoco.BaseTask.__init__(self)
+                    pr = case.get("prio") or []
+                    if idx < len(pr) and pr[idx] is not None: self.priority = pr[idx]      # < 1: subject to the priority rotation
                 def __len__(self):                       # falsy variant: a task that is also an empty container
                     if case.get("falsy_task"): return 0
                     raise TypeError("object of type 'UserTask' has no len()")
@@ -543,27 +578,32 @@ class C07(Check):
                             if it == 2:
                                 n = st.snsub
                                 st.submitted.append([0, n]); st.snsub += 1
-                                sx = case.get("sx") or []
-                                hand_over(0, n, sx[n] if n < len(sx) else None, n % 2)
+                                sx, sf = case.get("sx") or [], case.get("sf") or []
+                                hand_over(0, n, sx[n] if n < len(sx) else None, sf[n] if n < len(sf) else n % 2)
                             else:
                                 v = it - 3
                                 st.wake_marks.append([v, len(st.slices)])
                                 sched.schedule(users[v])
                         if i < len(prog):
                             y = prog[i]; i += 1
+                            if y == 1: st.yield0[self.idx] = st.yield0.get(self.idx, 0) + 1
                             yield (0 if y == 1 else False)
                         else:
                             yield False
             users = [UserTask(i, p) for i, p in enumerate(case["users"])]
             st.users = users
+            if case.get("draws"):
+                # the draws of the priority rotation (Scheduler._random is the hook the scheduler offers for this), pinned: cycled
+                draws = itertools.cycle(case["draws"])
+                sched._random = lambda: next(draws)
 
             import threading as _real_threading
             def on_scheduler_thread():
                 # the REAL interpreter thread executing this code is the OS thread the scheduler's run() was started on
                 # (Scheduler._thread, created by the real runThreaded()), and recoco's own view agrees
                 th = sched._thread
-                return (th is not None and th.mt is not None and _real_threading.current_thread() is th.mt.real
-                        and recoco.threading.current_thread() is th)
+                return (th is not None and th.mt is not None and _real_threading.get_ident() == th.mt.real.ident
+                        and recoco.threading.current_thread() is th and _real_threading.current_thread() is th)
             class HandedOverBase(BaseException):
                 """a BaseException (not an Exception) raised by a handed-over function"""
             EXC = {"IndexError": IndexError, "KeyError": KeyError, "ValueError": ValueError, "RuntimeError": RuntimeError,
@@ -718,7 +758,7 @@ class C07(Check):
                 "ready": [desc(t) for t in ready_q.peek()],
                 "slices": st.slices, "wake_marks": st.wake_marks,
                 "dup_ready": st.dup_ready, "insec_violations": st.insec_violations, "wrong_thread": st.wrong_thread,
-                "timeouts": st.timeouts, "bad_args": st.bad_args,
+                "timeouts": st.timeouts, "bad_args": st.bad_args, "yield0": sorted(st.yield0.items()),
                 "completed": st.completed,
                 "thread_errors": {t.name: t.error for t in ctl.threads if t.error},
                 "blocked_at": {t.name: list(t.key) for t in ctl.threads if not t.done},
@@ -1129,6 +1169,8 @@ class C07(Check):
     def model_request2(self, case, obs):
         k = case["kind"]
         if k == "threads":
+            if any(p is not None and p < 1 for p in case.get("prio") or []):
+                return None          # the priority rotation (priority < 1) is not in the model: these runs are judged by the oracle only
             progs = [[({"o": "syncExit"} if op["o"] == "syncExitExc" else op) for op in p] for p in case["progs"]]
             return {"op": "replay", "threaded": bool(case["threaded"]), "users": case["users"], "progs": progs,
                     "trace": self.map_trace(obs["raw"])}
@@ -1198,6 +1240,12 @@ class C07(Check):
         named = [d for d in obs["ready"] if not d.startswith("st(")]          # ScheduleTasks are anonymous: compare the others
         if obs["dup_ready"] or len(set(named)) != len(named):
             return "a task occurs twice in the ready queue"
+        y0 = dict(obs.get("yield0") or [])
+        for u in set(obs["slices"]):
+            # a user task sleeps until it is woken: each slice is paid for by one of its own `yield 0` or by a wake-up naming it
+            # (wake-ups that find it queued already are coalesced, so fewer slices are fine — more are not)
+            if obs["slices"].count(u) > y0.get(u, 0) + sum(1 for v, m in obs["wake_marks"] if v == u):
+                return "a task ran more slices than its wake-ups and its own re-queues account for"
         if obs["insec_violations"]:
             return "cooperative code ran while a foreign thread was inside synchronized()"
         if obs["wrong_thread"] or any(e[2] != 0 for e in obs["executed"]):
@@ -1441,7 +1489,8 @@ class C07(Check):
                    "a falsy __len__/__bool__ breaks exclusion on the unrepaired code (checked on the real code; repair fixes/C07-2_lock_falsy_holder.diff)",
                    "cooperative Lock model is sequential and not connected to the scheduler model: the woken waiter's fast_schedule and its "
                    "`rv = True` are checked on the real Scheduler by the lock correspondence (`scheduled == [woken]`), not proved",
-                   "assert statements are live (no -O); the scheduler is the default scheduler (BaseTask.start uses defaultScheduler)"]
+                   "assert statements are live (no -O); one scheduler per run in the thread cases (a second, non-default instance is exercised by "
+                   "the case kind `twosched` only: helper tasks start on their own scheduler since fix C07-3)"]
 
 
 def _listed(prop, key_prefix):
@@ -1469,6 +1518,7 @@ class _RunState:
         self.slices, self.executed, self.submitted, self.wake_marks = [], [], [], []
         self.insec_violations, self.wrong_thread, self.timeouts = [], [], []
         self.bad_args = []
+        self.yield0 = {}
         self.dup_ready = False
         self.snsub = 0
         self.completed = []
